@@ -24,10 +24,10 @@ theorem C04_join (c : Case) (hf : c.fam = .joinSlice ∨ c.fam = .joinTuple) :
   unfold Case.trace
   rcases hf with hf | hf
   · simp only [hf, Fam.isGroup, Bool.false_eq_true, if_false, Case.finalFix, Fam.policy]
-    exact (Sim.runFix (C04.sim_joinSlice c.n (Fam.joinSlice.modeOf c.mode)) c.ops _ rfl
+    exact (Sim.runFix (C04.sim_joinSlice c.n (Fam.joinSlice.modeOf c.mode)) c.ops _ rfl (Sim.scriptsOk_any _)
       (by simpa [FEng.init, Fam.initCnt, World.init] using C04.inv_init true c.n)).mon
   · simp only [hf, Fam.isGroup, Bool.false_eq_true, if_false, Case.finalFix, Fam.policy]
-    exact (Sim.runFix (C04.sim_joinTuple c.n (Fam.joinTuple.modeOf c.mode)) c.ops _ rfl
+    exact (Sim.runFix (C04.sim_joinTuple c.n (Fam.joinTuple.modeOf c.mode)) c.ops _ rfl (Sim.scriptsOk_any _)
       (by simpa [FEng.init, Fam.initCnt, World.init] using C04.inv_init false c.n)).mon
 
 /-- non-vacuity: three children completing out of order (2, then 0, then 1) over four polls -/
